@@ -367,8 +367,8 @@ theorem clear_sub {fuel : Nat} {o : ObjId} {c : Attr} {st st' : St} {cd : Side}
         rw [hadd] at h12
         generalize (List.range st.store.n).filter (fun x => st.store.mem o c x && !([] : List ObjId).contains x) = toRemove at *
         simp only [rewriteRow_store]
-        have hrow : Sub st2.store (st2.store.setRow o c fun x => ([] : List ObjId).contains x) :=
-          sub_setRow_shrink o c _ (by intro x hx; simp at hx)
+        have hrow : Sub st2.store (st2.store.setRow o c (finalRow (!rd.isColl && cd.cascade) [] st2.store)) :=
+          sub_setRow_shrink o c _ (by intro x hx; simp [finalRow] at hx)
         split at h12
         · rename_i hcoll
           have hrd' : rd.isColl = false := by simpa using hcoll
